@@ -2,7 +2,10 @@ module verifharness
 
 go 1.21
 
-require github.com/bartossh/Computantis/src v0.0.0
+require (
+	github.com/bartossh/Computantis/src v0.0.0
+	github.com/mr-tron/base58 v1.2.0
+)
 
 require (
 	github.com/cespare/xxhash/v2 v2.2.0 // indirect
@@ -19,7 +22,6 @@ require (
 	github.com/google/uuid v1.5.0 // indirect
 	github.com/heimdalr/dag v1.3.1 // indirect
 	github.com/klauspost/compress v1.17.1 // indirect
-	github.com/mr-tron/base58 v1.2.0 // indirect
 	github.com/pkg/errors v0.9.1 // indirect
 	github.com/shamaton/msgpack/v2 v2.1.1 // indirect
 	github.com/vmihailenco/msgpack v4.0.4+incompatible // indirect
